@@ -17,3 +17,7 @@ NOT_APPLICABLE = {
 }
 
 # Per-property entries live in the check modules (ENTRIES in checks/<x>.py).
+
+# Properties whose checks are finished and claimed in MANIFEST.json (others stay under
+# not_applicable as "not built yet" until their builder reports done and the check was run here).
+CLAIMED = ["C17", "C18", "C19", "C20", "C21"]
